@@ -234,7 +234,7 @@ pub fn run(prop: &str, seed: u64, n: usize, outdir: &str, _corpus: Option<&str>)
             flags.push(("c18_definition_files_accepted".into(), 0));
             *dist.entry("configuration_rejected".into()).or_default() += 1;
             let term = format!(
-                "(Build_trncase {} {} {} {} [([], [], [])])",
+                "(Build_trncase {} {} {} {} [([], [], [])] None)",
                 sub, clist(&flags, |(k, v)| format!("({}, {})", cstr(k), v)),
                 clist(&c.bigrams, |(l, r)| format!("({}, {})", cstr(l), cstr(r))), cstr(&c.rewrite_def)
             );
@@ -258,7 +258,7 @@ pub fn run(prop: &str, seed: u64, n: usize, outdir: &str, _corpus: Option<&str>)
                 for f in ["c14_write_dictionary_succeeds", "c15_generate_succeeds", "c16_write_bigram_details_succeeds"] { flags.push((f.into(), 0)); }
                 *dist.entry(format!("first_generation_fails_panic_{}_k7_{}", other.is_err(), k7)).or_default() += 1;
                 let term = format!(
-                    "(Build_trncase {} {} {} {} [])",
+                    "(Build_trncase {} {} {} {} [] None)",
                     sub, clist(&flags, |(k, v)| format!("({}, {})", cstr(k), v)),
                     clist(&c.bigrams, |(l, r)| format!("({}, {})", cstr(l), cstr(r))), cstr(&c.rewrite_def)
                 );
@@ -334,6 +334,21 @@ pub fn run(prop: &str, seed: u64, n: usize, outdir: &str, _corpus: Option<&str>)
             let antitone = sets.iter().all(|a| sets.iter().all(|b| !(a.0 < b.0) || cost(a.0) >= cost(b.0)));
             flags.push(("c14_cost_formula".into(), (lex_costs_ok && unk_costs_ok && mat_ok && antitone) as u8));
         } else { flags.push(("c14_cost_formula".into(), 0)); }
+        // the same numbers for the exact binary64 recomputation in Coq (weights as bit patterns)
+        let num_t = match model.verif_merged() {
+            Ok((sets, matrix)) => {
+                let rows3 = |txt: &str| -> Vec<(i64, i64, i64)> { txt.lines().filter_map(split_row).map(|r| (r.1, r.2, r.3)).collect() };
+                let mlines: Vec<(i64, i64, i64)> = matrix_txt.lines().skip(1).filter_map(|l| { let v: Vec<i64> = l.split(' ').filter_map(|x| x.parse().ok()).collect(); if v.len() == 3 { Some((v[0], v[1], v[2])) } else { None } }).collect();
+                format!("(Some (Build_numdata {} {} {} {} {} ({}, {})))",
+                    clist(&sets, |s| format!("({}%Z, {}, {})", s.0.to_bits(), s.1, s.2)),
+                    clist(&matrix, |m| format!("({}, {}, {}%Z)", m.0, m.1, m.2.to_bits())),
+                    clist(&rows3(&lex_out), |r| format!("({}, {}, {})", r.0, r.1, cz(r.2))),
+                    clist(&rows3(&unk_out), |r| format!("({}, {}, {})", r.0, r.1, cz(r.2))),
+                    clist(&mlines, |r| format!("({}, {}, {})", r.0, r.1, cz(r.2))),
+                    nright, nleft)
+            }
+            Err(_) => "None".to_string(),
+        };
         // user rows: trained iff given as 0,0,0
         let user_ok = c.user.lines().zip(user_out.lines()).all(|(a, b)| match (split_row(a), split_row(b)) {
             (Some(a), Some(b)) => a.0 == b.0 && a.4 == b.4 && ((a.1, a.2, a.3) == (0, 0, 0) || (a.1, a.2, a.3) == (b.1, b.2, b.3)),
@@ -424,10 +439,10 @@ pub fn run(prop: &str, seed: u64, n: usize, outdir: &str, _corpus: Option<&str>)
             format!("({}, {}, {})", clist(&words, |w| w.clone()), rows_of(&f.left), rows_of(&f.right))
         };
         let term = format!(
-            "(Build_trncase {} {} {} {} {})",
+            "(Build_trncase {} {} {} {} {} {})",
             sub, clist(&flags, |(k, v)| format!("({}, {})", cstr(k), v)),
             clist(&c.bigrams, |(l, r)| format!("({}, {})", cstr(l), cstr(r))), cstr(&c.rewrite_def),
-            clist(&[view(&f1), view(&g3)], |v| v.clone())
+            clist(&[view(&f1), view(&g3)], |v| v.clone()), num_t
         );
         term
         }));
@@ -440,7 +455,7 @@ pub fn run(prop: &str, seed: u64, n: usize, outdir: &str, _corpus: Option<&str>)
                 for f in ["c14_write_dictionary_succeeds", "c15_generate_succeeds", "c16_write_bigram_details_succeeds"] { flags.push((f.into(), 0)); }
                 *dist.entry(format!("later_generation_panics_k7_{}", k7)).or_default() += 1;
                 format!(
-                    "(Build_trncase {} {} {} {} [])",
+                    "(Build_trncase {} {} {} {} [] None)",
                     sub, clist(&flags, |(k, v)| format!("({}, {})", cstr(k), v)),
                     clist(&c.bigrams, |(l, r)| format!("({}, {})", cstr(l), cstr(r))), cstr(&c.rewrite_def)
                 )
